@@ -221,11 +221,13 @@ pub struct Model {
     pub now: u64,
     /// virtual wall clock in ms, set by the driver before each command
     pub wall_ms: u64,
+    /// epoch (wall ms) of the current history: signatures print clock-derived stream ids relative to it
+    pub sig_ms_base: u64,
 }
 
 impl Model {
     pub fn new() -> Model {
-        Model { dbs: (0..16).map(|_| Db::default()).collect(), now: 0, wall_ms: 0 }
+        Model { dbs: (0..16).map(|_| Db::default()).collect(), now: 0, wall_ms: 0, sig_ms_base: 0 }
     }
 
     pub fn set_clock(&mut self) {
